@@ -76,4 +76,6 @@ def run(c, prog):
     C14_arm.run(c, prog)
     from . import C01_rot
     C01_rot.run(core.Alias(c, "C14"), prog)     # the CFrame attribute shares the 24 rotation ids
+    from . import C08
+    C08.rule_scratch(core.Alias(c, "C14"), prog)   # the Attributes blob of one instance must not start with another's
     c.not_decided += ["round trip for every payload (a run)", "String::from_utf8 (std)"]
